@@ -37,8 +37,8 @@ def run(chk):
   chk.require(not r.ok and r.violated == 'Fresh', 'vacuous: Fresh is not violated by the as-coded memo mechanism (Mirror)')
   chk.notes['mirror_counterexample'] = [s['state'].get('act') for s in (r.error_trace or [])]
   hits = {}
-  plan = [('C09_sim.cfg', 500, 30), ('C09_sim_dl.cfg', 400, 30)] if not thorough else \
-         [('C09_sim.cfg', 4000, 40), ('C09_sim_dl.cfg', 3000, 40)]
+  plan = [('C09_sim.cfg', 400, 30), ('C09_sim_dl.cfg', 300, 30), ('C09_sim_oc.cfg', 150, 30), ('C09_sim_sd.cfg', 300, 30)] if not thorough else \
+         [('C09_sim.cfg', 4000, 40), ('C09_sim_dl.cfg', 3000, 40), ('C09_sim_oc.cfg', 2000, 40), ('C09_sim_sd.cfg', 3000, 40)]
   for cfg, num, depth in plan:
     h = symtree_check.replay_simulated(chk, cfg, CLAUSES, num, depth, chk.seed, batches=1 if not thorough else 8)
     for k, v in h.items():
